@@ -1,7 +1,6 @@
 (* C05/Examples.v — concrete instances: the hypotheses of the theorems are satisfiable (non-vacuity), and
    the witnesses of the refuted clauses (findings F05a, F05c).  Everything by computation. *)
-From CF Require Import C05.Model C05.Proofs_create C05.Proofs_add C05.Proofs_unpack C05.Proofs_flags
-  C05.Proofs_hist C05.Proofs_sync.
+Require Import CF.C05.Model CF.C05.Proofs_create CF.C05.Proofs_add CF.C05.Proofs_unpack CF.C05.Proofs_flags CF.C05.Proofs_hist CF.C05.Proofs_sync.
 Open Scope Z_scope.
 
 (* a TOC with 12 one-byte variables (idents 300..311) and a float *)
@@ -22,24 +21,33 @@ Example ex_split_at_nine :
    (put s 0 (set_pending (get s 0) 1),
     [OWire 5 1 [6;1; 17;44;1; 17;45;1; 17;46;1; 17;47;1; 17;48;1; 17;49;1; 17;50;1; 17;51;1; 17;52;1; 17] [6;1];
      OWire 5 1 [7;1; 17;53;1; 17;54;1; 17;55;1] [7;1]], None).
-Proof. split; [discriminate|reflexivity]. Qed.
+Proof. vm_compute. split; [discriminate|reflexivity]. Qed.
 
 Example ex_vars_good : Forall (var_good ex_toc) (map (fun k => mkVar true k 1 1 0) [0;1;2;3;4;5;6;7;8;9;10;11]).
-Proof. repeat constructor; cbn; try (eexists; split; [reflexivity|lia]). Qed.
+Proof.
+  apply Forall_forall. intros v Hv. cbn [map In] in Hv.
+  repeat (destruct Hv as [<-|Hv]; [split; [reflexivity|split; [reflexivity|eexists; split; [vm_compute; reflexivity|lia]]]|]).
+  contradiction.
+Qed.
 
 (* accept_iff: the hypotheses hold in the state before add_config, and the configuration is accepted *)
 Example ex_accept :
   let s := final init_st (ex_session ++ ex_cfg12) in
   s_link s = true /\ s_toc s = Some ex_toc /\ snd (add_config s 0) = AccAccepted.
-Proof. cbn zeta. repeat split; reflexivity. Qed.
+Proof. vm_compute. repeat split; reflexivity. Qed.
 
-(* 27 bytes: rejected, nothing changes but `valid` *)
-Example ex_reject_27 :
-  let evs := ex_session ++ [ENew 100] ++ map (fun k => EAddVar 0 k 1) [0;1;2;3;4;5;6;7;8;9;10;11;0;1;2;3;4;5;6;7;8;9;10] ++ [EAddVar 0 20 7] in
-  snd (add_config (final init_st evs) 0) = AccRejected AttributeError /\
-  snd (add_config (final init_st (removelast evs)) 0) = AccRejected AttributeError /\
-  snd (add_config (final init_st (removelast (removelast evs) ++ [EAddVar 0 20 7])) 0) = AccAccepted.
-Proof. cbn zeta. repeat split; reflexivity. Qed.
+(* the 26-byte boundary: 22 one-byte variables + a float = 26 accepted, one more byte rejected *)
+Definition ex_bytes (n : list Z) : list ev := map (fun k => EAddVar 0 k 1) n.
+Example ex_boundary_26_27 :
+  let b22 := ex_bytes [0;1;2;3;4;5;6;7;8;9;10;11;0;1;2;3;4;5;6;7;8;9] in
+  snd (add_config (final init_st (ex_session ++ [ENew 100] ++ b22 ++ [EAddVar 0 20 7])) 0) = AccAccepted /\
+  snd (add_config (final init_st (ex_session ++ [ENew 100] ++ b22 ++ [EAddVar 0 20 7; EAddVar 0 10 1])) 0)
+    = AccRejected AttributeError /\
+  snd (add_config (final init_st (ex_session ++ [ENew 2550] ++ b22)) 0) = AccRejected AttributeError /\
+  snd (add_config (final init_st (ex_session ++ [ENew 2549] ++ b22)) 0) = AccAccepted /\
+  snd (add_config (final init_st (ex_session ++ [ENew 9] ++ b22)) 0) = AccRejected AttributeError /\
+  snd (add_config (final init_st (ex_session ++ [ENew 100] ++ b22 ++ [EAddVar 0 30 1])) 0) = AccRejected KeyError.
+Proof. vm_compute. repeat split; reflexivity. Qed.
 
 (* unpack: int8 -1, uint16 0xBEEF, float bits *)
 Example ex_unpack :
@@ -48,8 +56,9 @@ Example ex_unpack :
   encode_sample vs [-1; 48879; 1065353216] = [255; 239; 190; 0; 0; 128; 63] /\
   unpack_vars vs [255; 239; 190; 0; 0; 128; 63] [] = Ok [(1, (4, -1)); (2, (2, 48879)); (3, (7, 1065353216))].
 Proof.
-  cbn zeta. split; [|split; reflexivity].
-  repeat constructor; cbn; unfold signed_range, unsigned_range; cbn; lia.
+  cbn zeta. split; [|split; vm_compute; reflexivity].
+  constructor; [|constructor; [|constructor; [|constructor]]];
+    (split; [reflexivity|vm_compute; split; [discriminate|reflexivity]]).
 Qed.
 
 (* ---------------------------------------------------------------- F05a: raw-memory variable *)
@@ -60,7 +69,19 @@ Example ex_memvar_accepted_but_create_raises :
   let s := final init_st ex_mem_history in
   In 0%nat (s_blocks s) /\ c_valid (get s 0) = true /\
   start s 0 = (put s 0 (set_pending (get s 0) 1), [], Some TypeError).
-Proof. cbn zeta. repeat split; try reflexivity. left. reflexivity. Qed.
+Proof. vm_compute. repeat split; try reflexivity. left. reflexivity. Qed.
+
+Lemma memvar_refutes_create_full :
+  ~ (forall tc id vs, Forall (fun v => v_toc v = true -> var_good tc v) vs ->
+                      Forall (fun v => in_byte (type_byte v) = true) vs ->
+                      snd (create_msgs true (Some tc) id vs) = None).
+Proof.
+  intros H. specialize (H ex_toc 1 [mkVar false 5 1 3 536870912]).
+  assert (X : snd (create_msgs true (Some ex_toc) 1 [mkVar false 5 1 3 536870912]) = Some TypeError) by (vm_compute; reflexivity).
+  rewrite H in X; [discriminate| |].
+  - constructor; [|constructor]. cbn. discriminate.
+  - constructor; [|constructor]. vm_compute. reflexivity.
+Qed.
 
 (* ---------------------------------------------------------------- F05c: reconnect, re-add, start *)
 Definition ex_reconnect_history : list ev :=
@@ -75,15 +96,17 @@ Example ex_reconnect_start_sends_no_create :
   let s := final init_st ex_reconnect_history in
   s_blocks s = [0%nat] /\ c_valid (get s 0) = true /\ c_id (get s 0) = 2 /\
   start s 0 = (s, [OWire 5 1 [3; 2; 10] [3; 2]], None).
-Proof. cbn zeta. repeat split; reflexivity. Qed.
+Proof. vm_compute. repeat split; reflexivity. Qed.
 
-(* SyncLogger: samples queued when the link is lost are not yielded; a reused SyncLogger stops early *)
+(* SyncLogger: samples queued when the link is lost are not yielded *)
 Example ex_sync_session :
   snd (sl_run sl_init [SConnect; SSample 1; SSample 2; SNext; SSample 3; SLinkLost; SNext; SNext])
     = [YNone; YNone; YNone; YSample 1; YNone; YNone; YStop; YStop].
-Proof. reflexivity. Qed.
+Proof. vm_compute. reflexivity. Qed.
 
-Example ex_sync_reuse_stale_marker :
-  snd (sl_run sl_init [SConnect; SLinkLost; SConnect; SSample 1; SNext; SNext])
-    = [YNone; YNone; YNone; YNone; YStop; YSample 1].
-Proof. reflexivity. Qed.
+(* a reused SyncLogger starts its second session with an empty queue (fixes/F05d.patch; the unrepaired
+   code returned StopIteration for the first next() of the second session: stale DISCONNECT_EVENT) *)
+Example ex_sync_reuse :
+  snd (sl_run sl_init [SConnect; SSample 7; SLinkLost; SConnect; SSample 1; SNext; SNext])
+    = [YNone; YNone; YNone; YNone; YNone; YSample 1; YBlocked].
+Proof. vm_compute. reflexivity. Qed.
